@@ -11,7 +11,8 @@ def truncate_chars(val: str, num: int, end: str = "...") -> str:
     if val_length < num:
         return val
 
-    return f"{val[:num-end_length]}{end}"
+    # Don't let a negative bound count from the end of `val`.
+    return f"{val[:max(0, num - end_length)]}{end}"
 
 
 # Note: truncate_words is no longer used by the truncatewords filter.
